@@ -15,6 +15,9 @@ O3  the same auto-ack post-condition after routed unicasts with and without an a
 With C04-O2/O3 (level addresses are shared by exactly the nodes of a level and differ from every
 unicast address; pipe 0 is not the level address when allow_multicast is off) this gives
 "every node of level L and no node of any other level".
+O4  populated co-simulation: 13 real nodes on the loss-free medium; sender / target level / one relaying node / one node
+    with allow_multicast off enumerated, symbolic type and contents: every other node of the level receives it once, the next
+    level once through a relay, nobody else, unacknowledged.
 """
 from checks.netcommon import *  # noqa
 
@@ -93,6 +96,52 @@ def o2_receiver(ctx, role, lvl, relay, n):
     ctx.reached()
 
 
+TREE = [0, 0o1, 0o2, 0o3, 0o11, 0o21, 0o12, 0o13, 0o111, 0o211, 0o112, 0o1111, 0o2111]
+
+
+def o4_cosim(ctx, sender, level, relay_at, deaf):
+    """populated whole-system run: 13 real nodes on the loss-free medium; `deaf` has allow_multicast off; `relay_at` relays"""
+    from circuitpython_nrf24l01.rf24_network import RF24Network
+    clock = fresh_env(ctx)
+    med = Medium()
+    nodes = {}
+    for a in TREE:
+        radio = med.add(SimRadio(clock, oct(a)))
+        node = RF24Network(FakeSpiDev(radio), 0, Pin(radio), a)
+        if a == deaf:
+            node.allow_multicast = False
+            node.node_address = a
+        if a == relay_at:
+            node.multicast_relay = True
+        nodes[a] = (radio, node)
+        med.attach_node(radio, node.update)
+    mtype = ctx.int("type", 0, 127)
+    body = ctx.bytes("body", 2)
+    rs, ns = nodes[sender]
+    med.running(rs, True)
+    ok = ns.multicast(body, mtype, level) if level is not None else ns.multicast(body, mtype)
+    med.running(rs, False)
+    for _ in range(40):
+        if not any(st[2] for st in med.nodes.values()):
+            break
+        med.run_pending()
+    L = level if level is not None else int(NS.level(sender))
+    ctx.check(ok == True, "multicast() returns True")  # noqa: E712
+    ctx.check(not med.errors, "no node raised: %r" % (med.errors[:1],))
+    relayed = relay_at is not None and int(NS.level(relay_at)) == L and relay_at != sender and relay_at != deaf and 1 <= L <= 3
+    for a, (radio, node) in nodes.items():
+        q = queue_frames(node)
+        lv = int(NS.level(a))
+        want = 1 if (lv == L and a != sender and a != deaf) or (relayed and lv == L + 1 and a != deaf) else 0
+        ctx.check(len(q) == want, "node %s (level %d) receives the level-%d multicast %d time(s)" % (oct(a), lv, L, want))
+        if len(q) == 1 and want == 1:
+            ctx.check(s_and(q[0].header.from_node == sender, q[0].header.message_type == mtype, bytes_eq(q[0].message, body)),
+                      "identical type, origin and bytes")
+    for e in med.air:
+        ctx.check(e["no_ack"] == True and not e["acked"], "no acknowledgement is requested and none is given")  # noqa: E712
+    ctx.reached()
+
+
 def jobs(tier):
     out = []
     lens = (0, 24, 25) if tier == "quick" else (0, 1, 24, 25, 48, 49, 144)
@@ -104,6 +153,11 @@ def jobs(tier):
                 for n in (lens if (role == "net" or tier == "thorough") else (0,)):
                     out.append(Job("O1-sender", o1_sender, dict(role=role, lx=lx, lvl=lvl, n=n), cost=5 + n // 8))
     out.append(Job("O1-sender", o1_sender, dict(role="master", lx=0, lvl="sym", n=1), cost=5))
+    scen = [(0, 1, None, None), (0o1, None, None, None), (0o2, 1, None, 0o3), (0o11, 3, None, None), (0o1111, 0, None, None),
+            (0o3, 2, 0o21, None), (0, 1, 0o2, 0o11), (0o111, 4, None, 0o2111), (0o12, None, 0o13, None), (0o2, 4, None, None),
+            (0o1, 1, 0o1, None), (0o211, 3, 0o111, 0o1111)]
+    for sender, level, relay_at, deaf in (scen if tier == "thorough" else scen[:9]):
+        out.append(Job("O4-populated-co-simulation", o4_cosim, dict(sender=sender, level=level, relay_at=relay_at, deaf=deaf), cost=30))
     # "no receiver acknowledges it": after a routed unicast (also one that awaited a NETWORK_ACK) auto-ack stays off on pipe 0
     from checks import c07
     for lvl in (1, 2):
@@ -125,8 +179,8 @@ META = {
                         "contents; O2: every role x level, relay on/off, symbolic origin of any level, symbolic type/id/reserved, "
                         "0 or 24 symbolic body bytes",
                "thorough": "message lengths 0,1,24,25,48,49,144"},
-    "outside": ["populated multi-node co-simulation (reception by 'every other node of level L' follows from O1's address + "
-                "C04-O2/O3 + O2; not run as one system)", "what a relaying node of level 0 or 4 transmits (the statement speaks of "
+    "outside": ["populated runs other than the 9 (12) scenarios of O4 on one 13-node tree (reception by 'every other node of level L' for all "
+                "addresses follows from O1's address + C04-O2/O3 + O2)", "what a relaying node of level 0 or 4 transmits (the statement speaks of "
                 "levels 1..3)", "timing jitter"],
     "assumptions": ["nobody acknowledges a multicast (the link never acknowledges in these harnesses)",
                     "reference level addresses specs/net_spec.level_addr"],
